@@ -53,7 +53,7 @@ REQUIRED = ('round_trips', 'replays_compared', 'partial_histories',
             'commentary_histories', 'commentary_sequences_compared',
             'commentary_with_whitespace_runs',
             'histories_with_facedown_unknown_shows',
-            'ten_plus_player_histories')
+            'ten_plus_player_histories', 'long_decimal_histories')
 
 PHH_GAMES = tuple(g for g in gen.ALL_GAMES if g != 'NoLimitRoyalHoldem')
 HOLDEM_FAMILY = ('FixedLimitTexasHoldem', 'NoLimitTexasHoldem',
@@ -224,6 +224,8 @@ def check_case(res, rng, cfg, pol):
         res.counters['decimal_histories'] += 1
     if cfg['n'] >= 10:
         res.counters['ten_plus_player_histories'] += 1
+    if cfg.get('long_decimals'):
+        res.counters['long_decimal_histories'] += 1
     if any(' # ' in a for a in hh.actions):
         res.counters['commentary_histories'] += 1
     if any(a.split()[1:2] == ['sm'] and '??' in a.split('#')[0]
@@ -382,6 +384,24 @@ def gen_cfg(rng):
     if cfg['mode'] == 'CASH_GAME' and \
             'RUNOUT_COUNT_SELECTION' not in cfg['autos']:
         cfg['autos'].append('RUNOUT_COUNT_SELECTION')
+    if chip == 'Decimal' and rng.random() < 0.12:
+        # many significant digits (an 18-decimal denomination): the text
+        # must carry every digit, a detour through a double does not
+        f = Decimal('1.000000000000000003')
+
+        def sc(v):
+            if isinstance(v, bool) or v is None:
+                return v
+            if isinstance(v, (int, Decimal)):
+                return v * f
+            if isinstance(v, (list, tuple)):
+                return type(v)(sc(x) for x in v)
+            if isinstance(v, dict):
+                return {k: sc(x) for k, x in v.items()}
+            return v
+        cfg['gargs'] = [cfg['gargs'][0]] + [sc(x) for x in cfg['gargs'][1:]]
+        cfg['stacks'] = sc(cfg['stacks'])
+        cfg['long_decimals'] = True
     if cfg['game'] in ('NoLimitTexasHoldem', 'FixedLimitTexasHoldem',
                        'NoLimitShortDeckHoldem') and rng.random() < 0.08:
         # big tables (two-digit player labels: p10, p11, ...)
